@@ -196,6 +196,53 @@ class _Slow:
         return type(other) is _Slow and other.v == self.v
 
 
+class _Box:
+    """Plain class that keeps part of its state as a pickle of its own and unpacks it in __setstate__ (a nested loads)."""
+    def __init__(self, inner, use_remote):
+        self.use_remote = use_remote
+        self.blob = (rp.dumps if use_remote else pickle.dumps)(inner)
+        self.inner = inner
+
+    def __getstate__(self):
+        return {'blob': self.blob, 'use_remote': self.use_remote}
+
+    def __setstate__(self, st):
+        self.__dict__.update(st)
+        self.inner = (rp.loads if st['use_remote'] else pickle.loads)(st['blob'])
+
+
+def _box_canon(b):
+    return ('Box', _box_canon(b.inner)) if isinstance(b, _Box) else repr(b)
+
+
+def nested_loads(chk):
+    """loads() called again from inside an object that is being restored (plain classes): same result as pickle."""
+    for depth in (1, 2, 3):
+        for use_remote in (True, False):
+            g = [1, {'a': 2}]
+            for _ in range(depth):
+                g = _Box(g, use_remote)
+            graph = [g, 'after', _Box(('t',), use_remote)]
+            ref = [_box_canon(x) for x in graph]       # what a faithful round trip gives (pickle does)
+            chk.case(('nested-loads', depth, use_remote))
+            chk.count('nested_loads_cases')
+            try:
+                got = [_box_canon(x) for x in rp.loads(rp.dumps(graph))]
+                out = 'ok' if got == ref else 'value'
+            except BaseException as e:  # noqa
+                out = 'exc:' + type(e).__name__
+            # ... and the thread is not left in a bad state
+            try:
+                after = rp.loads(rp.dumps([1, 2])) == [1, 2]
+            except BaseException as e:  # noqa
+                after = False
+            LOG.clear()
+            if out != 'ok' or not after:
+                chk.violation('nondeclaring:nested-loads:%s' % (out if out != 'ok' else 'later-loads-broken'),
+                              'plain objects whose __setstate__ calls %s.loads (depth %d): remote_pickle gives %s where pickle round-trips; a later loads on the thread works: %s' % (
+                                  'remote_pickle' if use_remote else 'pickle', depth, out, after), {'depth': depth, 'nested_uses_remote_pickle': use_remote})
+
+
 def concurrent_plain(chk, thorough):
     """Several threads load plain graphs at the same time (the loads overlap: __setstate__ sleeps): every single call
     must still equal what pickle gives."""
@@ -280,6 +327,7 @@ def run(tier):
     chk.sample({'kind': 'stdlib menu', 'values': [repr(v)[:40] for v in std_menu()[22:40]]})
     late_copyreg(chk, differ)
     concurrent_plain(chk, thorough)
+    nested_loads(chk)
 
     # ---- B. generated non-declaring hierarchies + graphs -----------------------
     n_h = 250 if thorough else 60
